@@ -47,10 +47,13 @@ func docSays(rel, want string) bool {
 
 func run(c *vrt.Ctx) {
 	h := newHarness(c)
+	h.docErrFunc = docSays("optimize/errors.go", "ErrFunc is returned when an initial function value is invalid. The error state may be either +Inf or NaN.") &&
+		docSays("optimize/errors.go", "ErrGrad is returned when an initial gradient is invalid. The error gradient may be either ±Inf or NaN.") &&
+		docSays("optimize/termination.go", "FunctionNegativeInfinity")
 	h.docGradThrNoEffect = docSays("optimize/types.go", "This setting has no effect if the gradient is not used by the Method")
 	h.docDefaultConverge = docSays("optimize/types.go", "FunctionConverge { Absolute: 1e-10, Iterations: 100, }")
 	h.docCmaLowestAcross = docSays("optimize/cmaes.go", "then the minimum value returned will be the lowest across all iterations")
-	c.Note("doc_clauses_found", map[string]bool{"GradientThreshold-no-effect": h.docGradThrNoEffect, "default-FunctionConverge": h.docDefaultConverge, "CmaEsChol-lowest-across-iterations": h.docCmaLowestAcross})
+	c.Note("doc_clauses_found", map[string]bool{"ErrFunc/ErrGrad-states": h.docErrFunc, "GradientThreshold-no-effect": h.docGradThrNoEffect, "default-FunctionConverge": h.docDefaultConverge, "CmaEsChol-lowest-across-iterations": h.docCmaLowestAcross})
 	race := *mode == "race"
 	before := vrt.SnapshotGoroutines()
 
